@@ -48,8 +48,10 @@ def run(ctx):
         cases += [{"kind": "c15", "inst": inst, "L": L, "P": dict(je.DEFAULT_P), "shape": "small-scope"} for inst, L in je.small_scope()]
         ctx.notes["exhaustive_small_scope"] = "all instances with <= 2 jobs x <= 2 operations on 2 machines, durations <= 2, slack 0..2 (468 cases), all bitstrings up to 10 qubits"
     cases += [dict(je.gen_huge_limit_case(ctx.rng, share=0, kind=k), kind="c15") for k in ["long", "unit"] * ctx.n(1, 10)]
+    je.assign_objects(ctx.rng, cases)
     for c in cases:
         summ = je.examiner(c)(ctx, batch, c, {"C15"}, ctx.rng)
+        ctx.tally(f"objects:{c.get('objects', 'shared')}")
         n = summ["n"]
         ctx.tally(f"shape:{c.get('shape', 'corpus')}")
         ctx.tally("qubits:" + ("rejected" if n is None else "0" if n == 0 else "1-4" if n <= 4 else "5-8" if n <= 8 else "9-10" if n <= 10 else "11-14"))
